@@ -532,3 +532,16 @@ Definition expressible6 (p : packet6) : bool :=
        | P6Control _ => true
        end
   end.
+
+(* every byte of the value is a byte *)
+Definition packet_bytes_ok6 (p : packet6) : bool :=
+  match p with
+  | P6Connless payload => bytes_ok payload
+  | P6Connected _ tok ty =>
+    match tok with Some t => bytes_ok t | None => true end
+    && match ty with
+       | P6Chunks _ _ payload => bytes_ok payload
+       | P6Control (C6Close reason) => bytes_ok reason
+       | P6Control _ => true
+       end
+  end.
